@@ -16,7 +16,9 @@
   kernel-checked tables of Heap's algorithm (`decide +kernel`, Lemmas/DetTable.lean), and
   `heaps_enumerates_all` / `detModel_eq_det_all` for every size through a proof of Heap's
   algorithm by induction on the level (Lemmas/HeapsArith.lean, Lemmas/HeapsAll.lean); the
-  inverse theorems use the latter.
+  inverse theorems use the latter.  The tensor inverse theorems carry `names.1 ≠ names.2` (the
+  `TensorRef` contract): the model of `Tensor::transpose_mut` resolves the requested order by name
+  (`tensor_transpose_by_name`, `tensor_transpose_equal_names`).
 -/
 import EasyMl.Lemmas.Det
 
@@ -126,11 +128,12 @@ example : (⟨[1, 2, 3, 4, 5, 6], 2, 3⟩ : EasyMl.Matrix Int).Inv ∧
 /-! ### The inverse -/
 
 section Inverse
-variable {K : Type} [Field K] [NumOrd K] {ν : Type}
+variable {K : Type} [Field K] [NumOrd K] {ν : Type} [DecidableEq ν] [Inhabited ν]
 
 /-- **Present exactly when defined.**  `inverse_tensor` returns a tensor exactly when the view is
     square with non-zero determinant (every shape). -/
-theorem inverse_some_iff (heq : LawfulEq K) (names : ν × ν) (v : View K) (h1 : 1 ≤ v.rows) :
+theorem inverse_some_iff (heq : LawfulEq K) (names : ν × ν) (hne : names.1 ≠ names.2) (v : View K)
+    (h1 : 1 ≤ v.rows) :
     (∃ t, inverseTensor names v = .ok (some t)) ↔
       v.rows = v.cols ∧ (Matrix.of fun i j : Fin v.rows => v.get i j).det ≠ 0 := by
   obtain ⟨n, c, g⟩ := v
@@ -140,20 +143,20 @@ theorem inverse_some_iff (heq : LawfulEq K) (names : ν × ν) (v : View K) (h1 
     by_cases hsq : n = c
     · subst hsq
       refine ⟨rfl, fun h0 => ?_⟩
-      rw [(inverseTensor_spec names n h1 g heq).1 h0] at ht
+      rw [(inverseTensor_spec names hne n h1 g heq).1 h0] at ht
       cases ht
     · rw [inverseTensor_nonsquare names _ hsq] at ht
       cases ht
   · rintro ⟨hsq, hdet⟩
     subst hsq
-    obtain ⟨data, hd, _, _⟩ := (inverseTensor_spec names n h1 g heq).2 hdet
+    obtain ⟨data, hd, _, _⟩ := (inverseTensor_spec names hne n h1 g heq).2 hdet
     exact ⟨_, hd⟩
 
 /-- The inverse is exact: its buffer is Mathlib's `A⁻¹`, hence `A⁻¹ · A = 1` … -/
-theorem inverse_mul_self (heq : LawfulEq K) (names : ν × ν) (n : Nat) (h1 : 1 ≤ n)
+theorem inverse_mul_self (heq : LawfulEq K) (names : ν × ν) (hne : names.1 ≠ names.2) (n : Nat) (h1 : 1 ≤ n)
     (get : Nat → Nat → K) (t : Tensor ν K) (h : inverseTensor names ⟨n, n, get⟩ = .ok (some t)) :
     matOfList n t.data * (Matrix.of fun i j : Fin n => get i j) = 1 := by
-  have hspec := inverseTensor_spec names n h1 get heq
+  have hspec := inverseTensor_spec names hne n h1 get heq
   by_cases h0 : (sqMat n get).det = 0
   · rw [hspec.1 h0] at h; cases h
   · obtain ⟨data, hd, _, hinv⟩ := hspec.2 h0
@@ -164,10 +167,10 @@ theorem inverse_mul_self (heq : LawfulEq K) (names : ν × ν) (n : Nat) (h1 : 1
     exact Matrix.nonsing_inv_mul _ (isUnit_iff_ne_zero.mpr h0)
 
 /-- … and `A · A⁻¹ = 1`. -/
-theorem self_mul_inverse (heq : LawfulEq K) (names : ν × ν) (n : Nat) (h1 : 1 ≤ n)
+theorem self_mul_inverse (heq : LawfulEq K) (names : ν × ν) (hne : names.1 ≠ names.2) (n : Nat) (h1 : 1 ≤ n)
     (get : Nat → Nat → K) (t : Tensor ν K) (h : inverseTensor names ⟨n, n, get⟩ = .ok (some t)) :
     (Matrix.of fun i j : Fin n => get i j) * matOfList n t.data = 1 := by
-  have hspec := inverseTensor_spec names n h1 get heq
+  have hspec := inverseTensor_spec names hne n h1 get heq
   by_cases h0 : (sqMat n get).det = 0
   · rw [hspec.1 h0] at h; cases h
   · obtain ⟨data, hd, _, hinv⟩ := hspec.2 h0
@@ -183,12 +186,12 @@ theorem matrix_inverse_some_iff (heq : LawfulEq K) (m : EasyMl.Matrix K) (hinv :
     (∃ r, inverse m = .ok (some r)) ↔
       m.rows = m.columns ∧
         (Matrix.of fun i j : Fin m.rows => m.data.getD ((j : Nat) + (i : Nat) * m.columns) 0).det ≠ 0 := by
-  rw [inverse_eq_inverseTensor ((), ()) m hinv]
-  have h := inverse_some_iff heq ((), ()) (viewOfMatrix m) hinv.2.1
+  rw [inverse_eq_inverseTensor (false, true) (by decide) m hinv]
+  have h := inverse_some_iff heq (false, true) (by decide) (viewOfMatrix m) hinv.2.1
   constructor
   · rintro ⟨r, hr⟩
     apply h.mp
-    cases hx : inverseTensor ((), ()) (viewOfMatrix m) with
+    cases hx : inverseTensor (false, true) (viewOfMatrix m) with
     | panic k => rw [hx] at hr; cases hr
     | ok o =>
       cases o with
@@ -207,10 +210,10 @@ theorem matrix_inverse_mul (heq : LawfulEq K) (m r : EasyMl.Matrix K) (hinv : m.
           * (Matrix.of fun i j : Fin m.rows => m.data.getD ((j : Nat) + (i : Nat) * m.columns) 0) = 1 ∧
       (Matrix.of fun i j : Fin m.rows => m.data.getD ((j : Nat) + (i : Nat) * m.columns) 0)
           * matOfList m.rows r.data = 1 := by
-  rw [inverse_eq_inverseTensor ((), ()) m hinv] at h
+  rw [inverse_eq_inverseTensor (false, true) (by decide) m hinv] at h
   have hv : viewOfMatrix m = ⟨m.rows, m.rows, (viewOfMatrix m).get⟩ := by
     simp [viewOfMatrix, hsq]
-  cases hx : inverseTensor ((), ()) (viewOfMatrix m) with
+  cases hx : inverseTensor (false, true) (viewOfMatrix m) with
   | panic k => rw [hx] at h; cases h
   | ok o =>
     cases o with
@@ -220,8 +223,8 @@ theorem matrix_inverse_mul (heq : LawfulEq K) (m r : EasyMl.Matrix K) (hinv : m.
       simp only [Outcome.ok.injEq, Option.some.injEq] at h
       subst h
       rw [hv] at hx
-      exact ⟨rfl, rfl, inverse_mul_self heq _ m.rows hinv.2.1 _ t hx,
-        self_mul_inverse heq _ m.rows hinv.2.1 _ t hx⟩
+      exact ⟨rfl, rfl, inverse_mul_self heq _ (by decide) m.rows hinv.2.1 _ t hx,
+        self_mul_inverse heq _ (by decide) m.rows hinv.2.1 _ t hx⟩
 
 /-- Non-vacuity: a square 2×2 rational matrix satisfying the invariant. -/
 example : (⟨[1, 2, 3, 4], 2, 2⟩ : EasyMl.Matrix ℚ).Inv ∧
@@ -238,7 +241,7 @@ example : (Matrix.of fun i j : Fin 2 => (((i : Nat) + 2 * (j : Nat) + 1 : Nat) :
 /-- Non-vacuity of the hypothesis `inverseTensor … = .ok (some t)` of `inverse_mul_self`,
     `self_mul_inverse`, `tensor_keeps_names`: that 2×2 rational view does have an inverse. -/
 example : ∃ t, inverseTensor ("a", "b") ⟨2, 2, fun i j => ((i + 2 * j + 1 : Nat) : ℚ)⟩ = .ok (some t) :=
-  (inverse_some_iff (fun a b => by simp [NumOrd.eq]) ("a", "b")
+  (inverse_some_iff (fun a b => by simp [NumOrd.eq]) ("a", "b") (by decide)
       ⟨2, 2, fun i j => ((i + 2 * j + 1 : Nat) : ℚ)⟩ (by decide)).mpr
     ⟨rfl, by simp [Matrix.det_fin_two]; norm_num⟩
 
@@ -276,15 +279,17 @@ theorem minor_mask_eq_minor_remove (m : EasyMl.Matrix α) (hinv : m.Inv) (i j : 
 example : (⟨[2, 0, 1, 1, 3, 2, 1, 1, 4], 3, 3⟩ : EasyMl.Matrix Int).Inv ∧
     minorMatrix (⟨[2, 0, 1, 1, 3, 2, 1, 1, 4], 3, 3⟩ : EasyMl.Matrix Int) 1 2 = some 2 := by decide
 
-variable [Div α] [NumOrd α] {ν : Type}
+variable [Div α] [NumOrd α] {ν : Type} [DecidableEq ν] [Inhabited ν]
 
-/-- `Matrix::inverse` is `inverse_tensor` of the matrix seen as a view, repackaged. -/
-theorem inverse_entry_points_agree (names : ν × ν) (m : EasyMl.Matrix α) (hinv : m.Inv) :
+/-- `Matrix::inverse` is `inverse_tensor` of the matrix seen as a view under any two different
+    dimension names, repackaged. -/
+theorem inverse_entry_points_agree (names : ν × ν) (hne : names.1 ≠ names.2) (m : EasyMl.Matrix α)
+    (hinv : m.Inv) :
     inverse m = match inverseTensor names (viewOfMatrix m) with
       | .panic k => .panic k
       | .ok none => .ok none
       | .ok (some t) => .ok (some ⟨t.data, m.rows, m.columns⟩) :=
-  inverse_eq_inverseTensor names m hinv
+  inverse_eq_inverseTensor names hne m hinv
 
 /-- Tensor results keep the input's dimension names (and order), lengths and a full buffer. -/
 theorem tensor_keeps_names (names : ν × ν) (v : View α) (t : Tensor ν α)
@@ -299,4 +304,115 @@ theorem inverse_total (names : ν × ν) (v : View α) : ∃ o, inverseTensor na
 
 end Agree
 
+/-! ### Algebra of the computed determinant; uniqueness, involution; name handling -/
+
+section Algebra
+variable {R : Type} [CommRing R]
+
+/-- the determinant the code computes is invariant under transposition of the input -/
+theorem detModel_transpose (n : Nat) (h1 : 1 ≤ n) (get : Nat → Nat → R) :
+    detModel n (fun i j => get j i) = detModel n get := by
+  rw [detModel_eq_det_all' n h1, detModel_eq_det_all' n h1, ← Matrix.det_transpose]
+  rfl
+
+/-- … and multiplicative -/
+theorem detModel_mul (n : Nat) (h1 : 1 ≤ n) (a b : Nat → Nat → R) :
+    detModel n (fun i j => ∑ k ∈ Finset.range n, a i k * b k j) = detModel n a * detModel n b := by
+  rw [detModel_eq_det_all' n h1, detModel_eq_det_all' n h1, detModel_eq_det_all' n h1,
+    ← Matrix.det_mul]
+  congr 1
+  ext i j
+  simp only [sqMat, Matrix.of_apply, Matrix.mul_apply]
+  rw [Finset.sum_range]
+
+end Algebra
+
+section Unique
+variable {K : Type} [Field K] [NumOrd K] {ν : Type} [DecidableEq ν] [Inhabited ν]
+
+/-- **Uniqueness.**  Whatever one-sided inverse of the input there is, it is the buffer returned. -/
+theorem inverse_unique (heq : LawfulEq K) (names : ν × ν) (hne : names.1 ≠ names.2) (n : Nat)
+    (h1 : 1 ≤ n) (get : Nat → Nat → K) (t : Tensor ν K)
+    (h : inverseTensor names ⟨n, n, get⟩ = .ok (some t))
+    (B : _root_.Matrix (Fin n) (Fin n) K)
+    (hB : B * (Matrix.of fun i j : Fin n => get i j) = 1 ∨ (Matrix.of fun i j : Fin n => get i j) * B = 1) :
+    B = matOfList n t.data := by
+  have hl := inverse_mul_self heq names hne n h1 get t h
+  have hr := self_mul_inverse heq names hne n h1 get t h
+  rcases hB with hB | hB
+  · calc B = B * ((Matrix.of fun i j : Fin n => get i j) * matOfList n t.data) := by rw [hr, Matrix.mul_one]
+      _ = matOfList n t.data := by rw [← Matrix.mul_assoc, hB, Matrix.one_mul]
+  · calc B = (matOfList n t.data * (Matrix.of fun i j : Fin n => get i j)) * B := by rw [hl, Matrix.one_mul]
+      _ = matOfList n t.data := by rw [Matrix.mul_assoc, hB, Matrix.mul_one]
+
+/-- **Absent exactly when there is nothing to return**: on a square view `inverse_tensor` answers
+    `None` iff the input has no (left) inverse at all. -/
+theorem inverse_none_iff_no_inverse (heq : LawfulEq K) (names : ν × ν) (hne : names.1 ≠ names.2)
+    (n : Nat) (h1 : 1 ≤ n) (get : Nat → Nat → K) :
+    inverseTensor names ⟨n, n, get⟩ = .ok none ↔
+      ¬ ∃ B : _root_.Matrix (Fin n) (Fin n) K, B * (Matrix.of fun i j : Fin n => get i j) = 1 := by
+  have hspec := inverseTensor_spec names hne n h1 get heq
+  constructor
+  · intro hnone ⟨B, hB⟩
+    have hdet : (sqMat n get).det ≠ 0 := by
+      intro h0
+      have := congrArg Matrix.det hB
+      rw [Matrix.det_mul, Matrix.det_one] at this
+      have h0' : (Matrix.of fun i j : Fin n => get i j).det = 0 := h0
+      rw [h0', mul_zero] at this
+      exact zero_ne_one this
+    obtain ⟨data, hd, _, _⟩ := hspec.2 hdet
+    rw [hd] at hnone
+    cases hnone
+  · intro hno
+    by_cases h0 : (sqMat n get).det = 0
+    · exact hspec.1 h0
+    · exfalso
+      apply hno
+      exact ⟨(sqMat n get)⁻¹, Matrix.nonsing_inv_mul _ (isUnit_iff_ne_zero.mpr h0)⟩
+
+/-- **Involution.**  Feeding the returned buffer back gives the original entries. -/
+theorem inverse_involutive (heq : LawfulEq K) (names : ν × ν) (hne : names.1 ≠ names.2) (n : Nat)
+    (h1 : 1 ≤ n) (get : Nat → Nat → K) (t : Tensor ν K)
+    (h : inverseTensor names ⟨n, n, get⟩ = .ok (some t)) :
+    ∃ t', inverseTensor names ⟨n, n, fun i j => t.data.getD (j + i * n) 0⟩ = .ok (some t') ∧
+      matOfList n t'.data = Matrix.of fun i j : Fin n => get i j := by
+  have hr := self_mul_inverse heq names hne n h1 get t h
+  have hB : sqMat n (fun i j => t.data.getD (j + i * n) 0) = matOfList n t.data := rfl
+  have hdet : (sqMat n (fun i j => t.data.getD (j + i * n) 0)).det ≠ 0 := by
+    rw [hB]
+    intro h0
+    have := congrArg Matrix.det hr
+    rw [Matrix.det_mul, h0, mul_zero, Matrix.det_one] at this
+    exact zero_ne_one this
+  obtain ⟨data, hd, _, hinv⟩ :=
+    (inverseTensor_spec names hne n h1 (fun i j => t.data.getD (j + i * n) 0) heq).2 hdet
+  refine ⟨_, hd, ?_⟩
+  simp only [hinv, hB]
+  exact Matrix.inv_eq_left_inv hr
+
+end Unique
+
+section Names
+variable {α : Type} {ν : Type} [DecidableEq ν] [Inhabited ν]
+
+/-- **Name handling of `Tensor::transpose_mut` inside `inverse_tensor`.**  The requested order
+    `[name₁, name₀]` is resolved by comparing names (`DimensionMappings::new`): for two different
+    names — whatever they are — the buffer is transposed in place and the shape keeps the input's
+    names in the input's order … -/
+theorem tensor_transpose_by_name (a b : ν) (h : a ≠ b) (n : Nat) (data : List α) :
+    transposeMutSquare [(a, n), (b, n)] n data = .ok (transposeSquare n data, [(a, n), (b, n)]) :=
+  transposeMutSquare_distinct a b h n data
+
+/-- … while for two equal names (excluded by `TensorRef`'s contract) the lookup yields the
+    identity mapping and nothing is transposed: uniqueness of the names is what the inverse
+    theorems need, and it is all they need. -/
+theorem tensor_transpose_equal_names (a : ν) (n : Nat) (data : List α) :
+    transposeMutSquare [(a, n), (a, n)] n data = .ok (data, [(a, n), (a, n)]) :=
+  transposeMutSquare_dup a n data
+
+/-- Non-vacuity: the library's own internal names, in the "wrong" order. -/
+example : ("column" : String) ≠ "row" := by decide
+
+end Names
 end EasyMl.C07
